@@ -13,7 +13,8 @@ TRUSTED = ['UnwindCleanupGuard / FirstExceptionRecorder (util/scope.h) modelled 
 ASSUMPTIONS = ['faults are std::runtime_error thrown by harness nodes'] + list(dyn.ASSUMPTIONS)
 TECHNIQUE = 'Lean 4 proof (start/stop as folds with rollback and first-exception recording, for every fault assignment) + differential correspondence with fault injection + lifecycle monitor'
 LEVEL_TEXT = ('Kernel-checked for every graph size and every assignment of start/stop faults: nodes start in order and exactly a prefix starts; stop visits every started node exactly once in reverse order even when stops throw; a failed start stops exactly the started prefix in reverse; the first error is the one reported. The engine model is compared with the runtime under injected faults, and every implementation trace passes the lifecycle monitor.'
-              " Dynamic children (Props/C14Dyn.lean, stream dynlife; map_, switch_ and reduce_ as coded after fixes F7/F8): for every key history and every assignment of start / evaluate / stop faults no lifecycle violation occurs, nothing is left started at the return of run() (clean-up on) and at release, every node's hook sequence is start, evaluate*, stop, the first error is the one reported, a failing child start leaves no started sibling behind, and a combiner stop error at the parent's stop reaches the caller (reduce_stop_error_reaches_caller).")
+              " Dynamic children (Props/C14Dyn.lean, stream dynlife; map_, switch_ and reduce_ as coded after fixes F7/F8): for every key history and every assignment of start / evaluate / stop faults no lifecycle violation occurs, nothing is left started at the return of run() (clean-up on) and at release, every node's hook sequence is start, evaluate*, stop, the first error is the one reported, a failing child start leaves no started sibling behind, and a combiner stop error at the parent's stop reaches the caller (reduce_stop_error_reaches_caller)."
+              " reduce_ with an explicit zero (Props/C14DynZ.lean, kind reducez): rebuild_structure as coded - pointer table over two banks, capacity growth with bank swap, phase 1 sets the no longer needed combiners aside (still started), phase 2 binds and starts the created ones, phase 3 stops the set-aside ones, the unwind guard discards the created and restores the set-aside combiners - for every history of live counts (incl. the 1->2 and 2->1 transitions that create one combiner and retire another in ONE rebuild), every fault assignment, zero on/off: no lifecycle violation, nothing started at the return (clean-up on) / at release, per-node hook language, first error wins, a throwing rebuild restores table, size, capacity and bank and leaves every set-aside combiner started and reachable (rz_failed_rebuild_restores_table, rz_failed_rebuild_then_stop_clean); a guard that returns early when combiners were created provably leaks one (rz_guard_early_leaks).")
 LEVEL_NOTE = 'Trusted: Lean kernel; model tied by correspondence; nested/dynamic children are exercised by the nested programs of C09/C15.'
 
 
